@@ -127,6 +127,10 @@ func randCalls(r *rand.Rand, n int, allowDup bool) []encCall {
 			calls = append(calls, bad[r.IntN(len(bad))])
 			continue
 		}
+		if r.IntN(18) == 0 { // ask where we are - seldom, since asking copies the names held by reference
+			calls = append(calls, encCall{Op: "ptr", B: []int{}})
+			continue
+		}
 		inObj := len(stack) > 0 && stack[len(stack)-1].obj
 		if inObj && stack[len(stack)-1].n%2 == 0 {
 			f := &stack[len(stack)-1]
